@@ -67,7 +67,7 @@ def observe(res, pid_in_argv=False):
     sre = re.compile(r"/(?:dev/shm|[^ ]*/\.work)/vf-\d+/c\d+")
     recs = []
     for r in res.get("log", []):
-        if str(r.get("id", "")) in ("Z1", "Z2"):
+        if str(r.get("id", "")) in ("Z0", "Z1", "Z2"):
             continue        # scaffolding of the -ctx entries
         o, ppid = norm_rec(r, sre)
         if isinstance(o.get("argv"), list) and ppid:
@@ -115,6 +115,10 @@ def run_at_prompt(case):
     except ptydrv.Unsettled as e:
         return {"unsettled": str(e)}
     try:
+        # a line typed at the prompt is rarely the first of its session (history expansion looks at the previous one)
+        ok, _ = s.send("vmk Z0 0\r", timeout=20)
+        if not ok:
+            return {"unsettled": "no quiescence after the first line", "alive": s.alive()}
         ok, _ = s.send(case["text"] + "\r", timeout=20)
         if not ok:
             return {"unsettled": "no quiescence after the line", "alive": s.alive()}
@@ -198,8 +202,9 @@ def runner(rep, tier, seed, replay):
         log("[C16] %s: %d lines" % (origin, len(got)))
         cases += got
     # lines whose end is where the script path's own pre-processing works (continuation folding, trimming): always part of the run
-    for t in ("vpa a\\\\", "vpa a b\\\\\\\\", "vpa 'q r' b\\\\", "vmk 5 0 x\\\\", "vpa a\\\\ ; vpa b\\\\", "vpa \"x y\" ;  vpa z\\\\"):
-        cases.append({"text": t, "origin": "C16-edge", "feat": {"edge": "escaped-backslash-last"}})
+    for t in ("vpa a\\ b wow!", "vpa \\!\\ x", "vpa 'q!' c\\ d", "vpa x! \"y z\" \\;",
+              "vpa a\\\\", "vpa a b\\\\\\\\", "vpa 'q r' b\\\\", "vmk 5 0 x\\\\", "vpa a\\\\ ; vpa b\\\\", "vpa \"x y\" ;  vpa z\\\\"):
+        cases.append({"text": t, "origin": "C16-edge", "feat": {"edge": "bang" if "!" in t else "escaped-backslash-last"}})
     seen = set()
     uniq = []
     for c in cases:
@@ -309,6 +314,7 @@ def runner(rep, tier, seed, replay):
     edge = edge[:nprompt // 2]
     rest_pool = [i for i in pool if i not in set(edge)]
     psel = edge + (rnd.sample(rest_pool, min(len(rest_pool), nprompt - len(edge))) if rest_pool else [])
+    psel = sorted(set(psel) | {i for i in pool if cases[i]["origin"] == "C16-edge"})
     pos = {i: n for n, i in enumerate(chosen)}
 
     def one(i):
